@@ -46,7 +46,7 @@ pub fn prepare_wire(id: &str) -> Result<bool, String> {
     if !has_wire_tier(id) || std::env::var("VCHECK_NO_WIRE").is_ok() {
         return Ok(false);
     }
-    if !std::path::Path::new(&format!("{}/erbium-dns", wire_dns::REPO_BIN_DIR)).exists() {
+    if !std::path::Path::new(&format!("{}/erbium-dns", wire_dns::repo_bin_dir())).exists() {
         return Err("erbium binaries not built (run ./setup.sh)".into());
     }
     netns::enter_private_namespaces()?;
@@ -98,7 +98,8 @@ pub fn run_check(id: &str, tier: Tier) -> i32 {
             }
         }
         "C20" => {
-            ctx.rule("gauges: after every step of a generated history get_pool_metrics must equal the harness's own count from get_leases; non-trivial = both classes non-empty");
+            ctx.rule("gauges: after every step of a generated history get_pool_metrics must equal the harness's own count over the listing (get_leases), and on file-backed worlds (1/8 of the histories, with restarts) the listing must equal the rows read from the SQLite file by the harness's own connection; non-trivial = both classes non-empty");
+            ctx.rule("upgraded-db: the same walk over a lease file written in the layout of an older release (no version row / version 0 / version 1 whose option blobs are NULL), 1..8 pre-existing rows owned by world clients or strangers, active and expired, followed by a generated history; non-trivial = rows written before the option column existed are still stored at the end");
             props_dhcp::run_c20_func(&ctx);
             if wire_ok && ctx.violations.lock().unwrap().is_empty() {
                 ctx.rule("wire-listing: 2..40 (thorough 250) DHCP clients whose client-identifier and host-name options are drawn from byte strings 0..255 with quotes, backslashes, C0 controls, DEL, invalid UTF-8, multi-byte and U+2028 against the real erbium; GET /api/v1/leases.json must parse with a strict JSON parser and be in bijection (address, client id bytes, start, expiry) with the rows read from the same SQLite file; gauges from /metrics equal the harness's count before any generated lease and after ageing every n-th row");
@@ -114,7 +115,7 @@ pub fn run_check(id: &str, tier: Tier) -> i32 {
             }
         }
         "C14" => {
-            ctx.rule("structured: generated messages (1..2000 records, names sharing suffixes at every depth, all rdata kinds, EDNS options) -> erbium DNSPkt -> serialise -> crate parser (equality) and independent RFC 1035 decoder (field-by-field at RFC bit positions, pointer audit); bytes: harness-encoded messages under three compression modes with 0..2 byte edits, accepted inputs re-encoded and compared; non-trivial = pointer inside rdata, or > 16 KiB, or EDNS options / accepted multi-record input");
+            ctx.rule("structured: generated messages (1..2000 records, names sharing suffixes at every depth incl. ladders in which the k-th name extends the (k-1)-th by one label up to 126 levels (pointer chains as long as the name), all rdata kinds, EDNS options) -> erbium DNSPkt -> serialise -> crate parser (equality) and independent RFC 1035 decoder (field-by-field at RFC bit positions, pointer audit); bytes: harness-encoded messages under three compression modes with 0..2 byte edits, accepted inputs re-encoded and compared; non-trivial = pointer inside rdata, or > 16 KiB, or EDNS options / accepted multi-record input");
             props_codec::run_c14_func(&ctx);
         }
         "C03" => {
@@ -187,7 +188,7 @@ pub fn run_check(id: &str, tier: Tier) -> i32 {
             }
         }
         "C17" => {
-            ctx.rule("build: generated interface sections (every field absent/null/value; lifetimes {0,1,8,600,1800,9000,9001,65535,65536,4294967,4294968,2^31,2^32-1,2^32,random} written as integers, '<n>s', mixed units or digit strings; 0..6 prefixes of any length with and without host bits; RDNSS 0..8 incl. $self6; DNSSL domains of 1..8 labels; PREF64 lengths {32,40,48,56,64,96}; URLs 0..240 octets) plus top-level defaults, rendered to YAML, loaded through the real loader, built by the pure builder, serialised, and decoded by a decoder written from RFC 4861/8106/8781/8910; oracle: decoded == expected(config), reserved fields zero, unrepresentable values rejected or clamped; non-trivial = >= 3 option kinds in the message or an unrepresentable value");
+            ctx.rule("build: generated interface sections (every field absent/null/value; lifetimes {0,1,8,600,1800,9000,9001,65535,65536,4294967,4294968,2^31,2^32-1,2^32,random} written as integers, '<n>s', mixed units or digit strings; 0..6 prefixes of any length with and without host bits; RDNSS 0..8 incl. $self6; DNSSL lists of 0..5 (1 in 25: 7..10 names of ~250 octets, i.e. more than one option can hold) domains of 1..8 labels of 1..63 octets, plus labels of 64..400 octets and names above 255 octets as unrepresentable values; PREF64 lengths {32,40,48,56,64,96}; URLs 0..240 octets) plus top-level defaults, rendered to YAML, loaded through the real loader, built by the pure builder, serialised, and decoded by a decoder written from RFC 4861/8106/8781/8910; oracle: decoded == expected(config), reserved fields zero, unrepresentable values rejected or clamped; non-trivial = >= 3 option kinds in the message or an unrepresentable value");
             ctx.assume("the mtu / lifetime tri-state resolution against interface and routing table lives in the impure wrapper and is decided by the wire tier; the hook takes the resolved values as parameters");
             props_ra::run_c17_func(&ctx);
             if wire_ok && ctx.violations.lock().unwrap().is_empty() {
@@ -212,7 +213,7 @@ pub fn run_check(id: &str, tier: Tier) -> i32 {
             ctx.rule("bucket: burst B and rate R inferred black-box, then generated arrival sequences (dt in {0,1,2,10,49,50,51,10^4} s, sizes 0..3.2B) applied check-then-deplete as the limiter does, on a harness clock; oracle: every window's granted volume <= B + R*span (+R per grant rounding), idle >= B/R => request <= B granted; non-trivial = grant after a denial or an idle gap");
             props_dnsfunc::run_c16_func(&ctx);
             if wire_ok && ctx.violations.lock().unwrap().is_empty() {
-                ctx.rule("wire-limiter: on a fresh erbium-dns per case: (1) 1..4 sources that never spoke send one refused (ANY) query each over UDP and must get one REFUSED; (2) a burst of 200..2000 refused queries from one source gets REFUSED for at most a quarter, and not more than a 200-query burst from another source (+2); (3) a server cookie obtained from an answered query exempts a 60-query burst only with the same client cookie, source and server address; presented from another source, to another server address, with a flipped bit, with an invented server part or after a restart it does not");
+                ctx.rule("wire-limiter: on a fresh erbium-dns per case: (1) 1..4 sources that never spoke send one refused (ANY) query each over UDP and must get one REFUSED; (2) a burst of 200..2000 refused queries from one source gets REFUSED for at most a quarter, and not more than a 200-query burst from another source (+2); (3) a server cookie obtained from an answered query exempts a 60-query burst only with the same client cookie, source and server address; presented from another source, to another server address, with a flipped bit, with an invented server part, after a restart, or with a server part computed by the public algorithm (HMAC-SHA256 over client cookie, server address, client address) under a guessable key (all-zero, all-ones, 01..08) it does not");
                 ctx.assume("key rotation (24..36 h) cannot be driven in a running server: acceptance under the previous key and rejection after two rotations are not covered");
                 props_dnswire2::run_c16_wire(&ctx);
             }
